@@ -19,6 +19,7 @@ type kept struct {
 	body, raw             []byte
 	id, serial, total, no int
 	phone                 string
+	cmd                   int
 }
 
 type keeper struct {
@@ -32,7 +33,7 @@ func (k *keeper) keep(c int, m *service.Message) {
 	h := m.JTMessage.Header
 	k.mu.Lock()
 	k.byC[c] = append(k.byC[c], &kept{m: m, body: append([]byte{}, m.JTMessage.Body...), raw: append([]byte{}, m.ExtensionFields.TerminalData...),
-		id: int(h.ID), serial: int(h.SerialNumber), total: int(h.SubPackageSum), no: int(h.SubPackageNo), phone: h.TerminalPhoneNo})
+		id: int(h.ID), serial: int(h.SerialNumber), total: int(h.SubPackageSum), no: int(h.SubPackageNo), phone: h.TerminalPhoneNo, cmd: int(m.Command)})
 	k.reads[c]++ // (join / unsupported callbacks are counted too: the writer is only ever released earlier)
 	k.cond.Broadcast()
 	k.mu.Unlock()
@@ -58,6 +59,8 @@ func (k *keeper) recheck(l *live, c int, when string) {
 			field = "serial"
 		case int(h.SubPackageSum) != e.total || int(h.SubPackageNo) != e.no:
 			field = "package"
+		case int(e.m.Command) != e.cmd:
+			field = "command"
 		}
 		l.rec.log(c, "H", "recheck", "i", i, "when", when, "same", field == "", "field", field, "msgid", e.id, "msgserial", e.serial)
 	}
@@ -157,8 +160,8 @@ func init() {
 						body[rr.Intn(n)] = 0x7e
 					}
 					id := []int{0x0200, 0x0704, 0x0801, 0x1005}[rr.Intn(4)]
-					if id == 0x0801 {
-						body = append(body, make([]byte, 36)...)
+					if id == 0x0801 { // (the multimedia id at the head of the body is this terminal's own: the 0x8800 reply echoes it)
+						body = append([]byte{0xC9, byte(t.idx), byte(i >> 8), byte(i)}, append(body, make([]byte, 36)...)...)
 					}
 					if rr.Intn(6) == 0 { // a terminal that does not advance its serial number: same serial, other bytes
 						t.smu.Lock()
@@ -224,7 +227,25 @@ func init() {
 					l.sendActive(t.idx, 100000+t.idx, string(asciiDigits(t.phone)), consts.P8104QueryTerminalParams, nil, 300*time.Millisecond)
 					close(done)
 				}()
+				// every other terminal answers it (a general response): the answer was handed to the read callback like any message and
+				// stays what it was when the server matches it with the pending request
+				if t.idx%2 == 0 {
+					dl := time.After(250 * time.Millisecond)
+				answer:
+					for {
+						select {
+						case fr := <-t.recvCh:
+							if dv, _ := decodeView(fr); dv.Ok && dv.ID == 0x8104 {
+								t.send(t.frame(0x0001, []byte{byte(dv.Serial >> 8), byte(dv.Serial), 0x81, 0x04, 0}))
+								break answer
+							}
+						case <-dl:
+							break answer
+						}
+					}
+				}
 				<-done
+				kp.recheck(l, t.idx, "after-command")
 				// sentinel
 				f := t.frame(0x0002, nil)
 				ser := t.serial
